@@ -6,13 +6,13 @@
     Server.create_authn_response → gather_authn_response_args (keyword argument, else the idp
     configuration value, else `param_defaults`) → Server._authn_response (PEFIM: advice assertion,
     `encrypted_advice_attributes = encrypt_assertion_self_contained = True`; `to_sign` holds the assertion
-    iff it is to be signed and NOT to be encrypted) → Entity._response: the early return, the downgrade
+    iff it is to be signed and NOT to be encrypted) → Entity._response: the early return (only when no
+    advice is left to encrypt), the downgrade
     when no certificate exists (`has_encrypt_cert_in_metadata`, `… is None` tests), part B (advice:
     sign, then encrypt), part C (assertion: signature template, `pre_encrypt_assertion`, sign, encrypt) or
     the `to_sign` parts, part D (Response signature last) → Entity._encrypt_assertion (explicit
     certificate if truthy, else the metadata encryption certificates in order, first one that works)
-    → CryptoBackendXmlSec1.encrypt_assertion (which applies `pre_encrypt_assertion` again to a message
-    that is still an object).
+    → CryptoBackendXmlSec1.encrypt_assertion (handed the serialised message).
 
   The wire form is a small tree in which an `EncryptedData` is an opaque box `sealed k x`
   (ideal encryption: it opens only for the private key matching `k`, and only while `intact`);
@@ -156,7 +156,6 @@ deriving Repr, DecidableEq, Inhabited
 
 inductive Refusal where
   | noUsableCert      -- every certificate tried raised
-  | objectForm        -- encrypting a message that is still an object: `pre_encrypt_assertion` runs twice, the xpath selects nothing
   | parseObject       -- `response_from_string` applied to an object
 deriving Repr, DecidableEq, Inhabited
 
@@ -199,29 +198,33 @@ structure RArgs where
   advice : Option Adv
 deriving Repr, DecidableEq, Inhabited
 
-/-- One `_encrypt_assertion` call on a message in the given form: `some k` = encrypted with `k`,
-    `none` = no certificate to try, the message comes back as it was. -/
-def encryptStep (form : Form) (c : Choice) : Except Refusal (Option Key) :=
+/-- One `_encrypt_assertion` call: `some k` = encrypted with `k`, `none` = no certificate to try, the
+    message comes back as it was.  (Since 9b391349 the message is handed to the crypto backend serialised,
+    so it no longer matters whether it is still an object.) -/
+def encryptStep (c : Choice) : Except Refusal (Option Key) :=
   match c with
   | .nothing => .ok none
   | .raised => .error .noUsableCert
-  | .key k => if form = .obj then .error .objectForm else .ok (some k)
-
-/-- `if to_sign and not sign and not encrypt_assertion: return signed_instance_factory(response, …, to_sign)` -/
-def earlyReturn (a : RArgs) : Bool := a.toSign && !a.sign && !a.encryptAssertion
+  | .key k => .ok (some k)
 
 /-- `encrypted_advice_attributes` after `if not has_encrypt_cert and encrypt_cert_advice is None: … = False` -/
 def adviceKept (a : RArgs) : Bool := a.encryptedAdvice && (hasEncryptCert a.md || !a.certAdvice.isNone)
 /-- `encrypt_assertion` after `if not has_encrypt_cert and encrypt_cert_assertion is None: … = False` -/
 def assertionKept (a : RArgs) : Bool := a.encryptAssertion && (hasEncryptCert a.md || !a.certAssertion.isNone)
 
+/-- `if to_sign and not sign and not encrypt_assertion:` … `if not advice_to_encrypt: return
+    signed_instance_factory(response, …, to_sign)` (130fd4d2), where `advice_to_encrypt` is
+    `encrypted_advice_attributes and advice is not None and len(advice.assertion) == 1 and
+    (has_encrypt_cert or encrypt_cert_advice is not None)`. -/
+def earlyReturn (a : RArgs) : Bool :=
+  a.toSign && !a.sign && !a.encryptAssertion && !(adviceKept a && a.advice.isSome)
+
 /-- part B signs the advice assertion: `if sign_assertion and not pefim` -/
 def signsAdvice (a : RArgs) : Bool := a.signAssertion && !a.pefim
 
-/-- is the message a string when part B / part C call `_encrypt_assertion`?  It becomes one through the
-    self-contained rendering or through `signed_instance_factory`. -/
+/-- is the message a string when part B is through with it?  It becomes one through the self-contained
+    rendering, through `signed_instance_factory`, or through an encryption that took place. -/
 def formB (a : RArgs) : Form := if a.selfContained || signsAdvice a then .str else .obj
-def formC (a : RArgs) : Form := if a.selfContained || a.signAssertion then .str else .obj
 
 /-- the advice assertion after part B's signing step -/
 def advAfterB (a : RArgs) (adv : Adv) : Adv := { adv with signed := adv.signed || signsAdvice a }
@@ -251,7 +254,7 @@ def partB (a : RArgs) : Except Refusal (List Op × Option AdvBox) :=
   | some adv =>
     if !adviceKept a then .ok ([], some (.clear adv))
     else
-      match encryptStep (formB a) (chooseCert a.certAdvice a.md) with
+      match encryptStep (chooseCert a.certAdvice a.md) with
       | .error e => .error e
       | .ok ko =>
         if ko.isNone && formB a = .obj then .error .parseObject
@@ -266,7 +269,7 @@ def finish (sign : Bool) (ops : List Op) (body : Body) (t : Trace) : Issued :=
 /-- Part C: signature template on the assertion, `pre_encrypt_assertion`, sign, encrypt. -/
 def partC (a : RArgs) (opsB : List Op) (advB : Option AdvBox) (t : Trace) : Except Refusal Issued :=
   let outer : Outer := { sig := if a.signAssertion then some advB else none, advice := advB }
-  match encryptStep (formC a) (chooseCert a.certAssertion a.md) with
+  match encryptStep (chooseCert a.certAssertion a.md) with
   | .error e => .error e
   | .ok ko =>
     .ok (finish a.sign (opsB ++ optOp a.signAssertion .signAssertion ++ keyOp .encAssertion ko) (sealBody ko outer)
